@@ -43,7 +43,7 @@ class Acc:
               sig: str, what: str,
               replay: Callable[[Dict[str, Fraction]], str],
               extra_cond: Sequence[z3.BoolRef] = (),
-              shape_extra: Sequence[z3.BoolRef] = ()) -> str:
+              shape_extra: Sequence[z3.BoolRef] = (), soft_fallback: bool = False) -> str:
         """Ask `path.cond and extra_cond => goal`.  On `sat`, look for a shaped model and
         hand it to `replay` (which renders a standalone script)."""
         conds = [path.cond, *extra_cond]
@@ -55,14 +55,18 @@ class Acc:
             self.ob("unknown", name, key)
             return r
         m = self.P.shaped_model([*conds, z3.Not(goal), *shape_extra], list(case.vars.values()))
+        fallback = False
         if m is None and shape_extra:
             m = self.P.shaped_model([*conds, z3.Not(goal)], list(case.vars.values()))
+            fallback = True
         if m is None:
             self.ob("unknown", name + "(real-model-only)", key)
             return "unknown"
         self.ob("sat", name, key)
+        # soft_fallback: only a witness outside the preferred shape exists (e.g. inside the zone the
+        # replay treats as a rounding tie); if the replay does not show it, it is inconclusive
         self.out["viol"].append((sig, f"{what} at { {k: str(v) for k, v in m.items()} }",
-                                 replay(m)))
+                                 replay(m)) + (("soft",) if (fallback and soft_fallback) else ()))
         return "sat"
 
     def finish(self, case_selfchecked: int = 0) -> Dict[str, Any]:
